@@ -97,11 +97,19 @@ FILTER_SAFE = ["__vp_pwn__", "vp_sentinel_mod_0.x", "`__vp_pwn__`", "a.__class__
 POSITIONS = ["default", "type", "doc", "decorator", "class-body", "module-level", "doc-type", "doc-default"]
 
 
+STATEMENT_PAYLOADS = ["import vp_sentinel_mod_0", "from vp_sentinel_mod_1 import x", "import vp_sentinel_mod_0 as np", "exec('import vp_sentinel_mod_0')", "__vp_pwn__()", "if True:\n    import vp_sentinel_mod_1", "try:\n    import vp_sentinel_mod_0\nexcept ImportError:\n    pass"]
+BACKTICK_TEMPLATES = ["Either `{p}` or `None`", "`{p}` or `x`", "one of `{p}`, `y`", "list of `{p}`", "a `{p}` of things", "`{p}`"]
+
+
 @st.composite
 def case_strategy(draw):
     pos = draw(st.sampled_from(POSITIONS))
-    if pos in ("doc", "doc-type") and draw(st.booleans()):
+    if pos == "module-level":
+        payload = draw(st.sampled_from(STATEMENT_PAYLOADS))
+    elif pos in ("doc", "doc-type") and draw(st.booleans()):
         payload = draw(st.sampled_from(FILTER_SAFE))
+    elif pos == "doc" and draw(st.booleans()):
+        payload = draw(st.sampled_from(BACKTICK_TEMPLATES)).format(p=draw(st.sampled_from(PAYLOADS[:5] + ["__import__('pathlib').Path({sentfile!r}).touch()"])))
     else:
         payload = draw(st.sampled_from(PAYLOADS))
     trig = draw(st.sampled_from(["", "dictionary of ", "list of ", "whether ", "number ", "one of ", "string or ", "Optional "]))
